@@ -283,9 +283,10 @@ class UndirectedMultigraph : private LabeledUndirectedGraph<EdgeMultiplicity> {
         for (VertexIndex i = 0; i < size; ++i)
             for (auto &j : getOutNeighbours(i)) {
                 const auto &multiplicity = getEdgeLabel(i, j);
-                adjacencyMatrix[i][j] += i == j && countSelfLoopsTwice
-                                             ? 2 * multiplicity
-                                             : multiplicity;
+                adjacencyMatrix[i][j] +=
+                    i == j && countSelfLoopsTwice
+                        ? 2 * static_cast<size_t>(multiplicity)
+                        : static_cast<size_t>(multiplicity);
             }
         return adjacencyMatrix;
     }
@@ -301,8 +302,8 @@ class UndirectedMultigraph : private LabeledUndirectedGraph<EdgeMultiplicity> {
         for (auto &neighbour : getNeighbours(vertex)) {
             multiplicity = getEdgeMultiplicity(vertex, neighbour);
             degree += countSelfLoopsTwice && vertex == neighbour
-                          ? 2 * multiplicity
-                          : multiplicity;
+                          ? 2 * static_cast<size_t>(multiplicity)
+                          : static_cast<size_t>(multiplicity);
         }
         return degree;
     }
